@@ -81,7 +81,9 @@ def _registry_digest():
 
 
 def work_chunk(args):
-    pid, verif_seed, tier, indices = args
+    pid, verif_seed, tier, indices = args[:4]
+    keep_going = args[4] if len(args) > 4 else True
+    deadline = args[5] if len(args) > 5 else None
     prop = load_prop(pid)
     reg0 = _registry_digest()
     agg = {"runs": 0, "nontrivial": 0, "steps": 0, "stats": {}, "nt_digests": [], "scheds": [],
@@ -90,6 +92,12 @@ def work_chunk(args):
     seen_states = set()
     seen_sched = set()
     for i in indices:
+        if deadline is not None and time.time() > deadline:
+            agg["unfinished"] = agg.get("unfinished", 0) + 1     # wall budget reached inside a chunk
+            continue
+        if agg["violations"] and not keep_going:
+            agg["unfinished"] = agg.get("unfinished", 0) + 1     # a violation was found: stop exploring
+            continue
         scn = scenario_for(prop, verif_seed, i, tier)
         res = run_one(prop, scn)
         if "harness_error" in res:
@@ -152,7 +160,7 @@ def sub_main(a):
                     ch = next(it)
                 except StopIteration:
                     return
-                f = ex.submit(work_chunk, (a.prop, a.seed, a.tier, ch))
+                f = ex.submit(work_chunk, (a.prop, a.seed, a.tier, ch, a.keep_going, t0 + a.budget * 1.5))
                 pending[f] = ch
         submit_more()
         while pending:
